@@ -48,6 +48,8 @@ thread_local! {
 }
 
 fn register_receiver(rx: Receiver<CollectCommand>) {
+    #[cfg(fastrace_verif)]
+    crate::verif::hook(|| crate::verif::Site::BeforeRegister);
     SPSC_RXS.lock().push(rx);
 }
 
@@ -706,6 +708,12 @@ pub mod verif_impl {
 
     pub fn touch_sender() {
         let _ = COMMAND_SENDER.try_with(|_| ());
+    }
+
+    /// Whether the receiver registry's lock is held right now (by a collector cycle's drain or
+    /// by a registering thread).
+    pub fn registry_locked() -> bool {
+        SPSC_RXS.try_lock().is_none()
     }
 
     pub fn collector_stats() -> CollectorStats {
